@@ -78,7 +78,29 @@ def pmap(spec, items, chunksize=1):
     if NPROC <= 1 or len(items) <= 1:
         fn = _resolve(spec)
         return [fn(a) for a in items]
-    return pool().map(_call, [(spec, a) for a in items], chunksize)
+    return _collect(pool().map_async(_call, [(spec, a) for a in items],
+                                     chunksize))
+
+
+class WorkerDied(RuntimeError):
+    """A checker interpreter crashed: the stdlib pool would wait for its
+    result for ever."""
+
+
+def _pids():
+    return sorted(w.pid for w in _pool._pool)
+
+
+def _collect(ar, pids=None):
+    pids = pids or _pids()
+    while True:
+        try:
+            return ar.get(timeout=10)
+        except multiprocessing.TimeoutError:
+            if _pids() != pids or any(w.exitcode is not None
+                                      for w in _pool._pool):
+                raise WorkerDied('a checker process died (interpreter crash?)'
+                                 '; pids %r -> %r' % (pids, _pids()))
 
 
 def dfs(spec, config, bound, want=None, max_execs=None, budget_s=None):
@@ -98,6 +120,15 @@ def dfs(spec, config, bound, want=None, max_execs=None, budget_s=None):
     if max_execs is not None:
         per = max(1, (max_execs - stats.executions) // len(roots))
     tasks = [(spec, config, p, bound, per, deadline) for p in roots]
-    for d in pool().imap(_subtree, tasks):
+    it = pool().imap(_subtree, tasks)
+    pids = _pids()
+    for _ in tasks:
+        while True:
+            try:
+                d = it.next(timeout=10)
+                break
+            except multiprocessing.TimeoutError:
+                if _pids() != pids:
+                    raise WorkerDied('a checker process died')
         stats.merge(d)
     return stats
